@@ -46,6 +46,9 @@ impl Rng {
     pub fn chance(&mut self, num: usize, den: usize) -> bool {
         self.below(den) < num
     }
+    pub fn pick_str<'a>(&mut self, v: &[&'a str]) -> &'a str {
+        v[self.below(v.len())]
+    }
     pub fn pick<'a, T>(&mut self, v: &'a [T]) -> &'a T {
         &v[self.below(v.len())]
     }
